@@ -1,9 +1,9 @@
 SPECIFICATION TSpec
 CONSTANTS
   NC = 3
-  Caps = {0,1,2,3,4,5,6}
+  Caps <- TCaps
   Vals = {1,2,3,4,5,6,7,8,9}
-  MaxList = 3
+  MaxList = 400
 INVARIANTS TypeOK NoJunkVisible JunkBeyondSize
 CONSTRAINT Track
 POSTCONDITION Report
